@@ -2,7 +2,7 @@ use crate::utils::{DeriveType, HashMap};
 use crate::utils::{SingleFieldData, State};
 use proc_macro2::TokenStream;
 use quote::quote;
-use syn::{parse::Result, DeriveInput};
+use syn::{ext::IdentExt as _, parse::Result, DeriveInput};
 
 /// Provides the hook to expand `#[derive(FromStr)]` into an implementation of `FromStr`
 pub fn expand(input: &DeriveInput, trait_name: &'static str) -> Result<TokenStream> {
@@ -63,7 +63,7 @@ fn enum_from(
         }
 
         variants_caseinsensitive
-            .entry(variant.ident.to_string().to_lowercase())
+            .entry(variant.ident.unraw().to_string().to_lowercase())
             .or_insert_with(Vec::new)
             .push(variant.ident.clone());
     }
@@ -83,7 +83,7 @@ fn enum_from(
             })
         } else {
             for variant in variants {
-                let variant_str = variant.to_string();
+                let variant_str = variant.unraw().to_string();
                 cases.push(quote! {
                     #canonical if(src == #variant_str) => #input_type::#variant,
                 })
